@@ -701,7 +701,8 @@ class AttackGraph():
                     attacker.name)
 
 
-        attacker.id = attacker_id or self.next_attacker_id
+        attacker.id = attacker_id if attacker_id is not None \
+            else self.next_attacker_id
         if attacker.id in self._id_to_attacker:
             raise ValueError(f'Attacker index {attacker_id} already in use.')
 
